@@ -597,6 +597,9 @@ func c19Run(c *Ctx) {
 
 	// service list provenance
 	c19ServiceList(c, run, tcall, svcList)
+	// first-wins for compatible entries rests on compareAddr treating an unset IP on EITHER side as a wildcard (the duplicate
+	// test passes the new address second, the selector passes the configured key first): same rule as C08
+	c08CompareAddr(c)
 
 	// ports list feeds from both spellings: ToAddr's argument is an element of phi/append over x.Ports and x.Port
 	arg := tcall.Call.Args[0]
